@@ -34,6 +34,9 @@ Module-level helpers
     ``near_duplicates(a, rng, k)``              up to k attributes that differ from ``a`` in exactly one leaf
                                                 (sign of zero, NaN payload, +-1, width, signedness, one char, ...)
     ``depth_of(a)``                             nesting depth (0 for leaves)
+    ``has_unordered_container(a)`` / ``rebuild_reordered(a, rng=None)``
+                                                the same value built with the entries of every order-insensitive
+                                                container (DictionaryAttr, set / dict payloads) inserted in another order
 """
 from __future__ import annotations
 
@@ -851,6 +854,54 @@ class AttrGen:
         if k == "array":
             return self.array_attr(depth)
         return self.dict_attr(depth)
+
+
+
+def has_unordered_container(a) -> bool:
+    """Does the value contain an order-insensitive container with >= 2 entries (DictionaryAttr, or a Data attribute whose
+    payload is a dict / set / frozenset)?"""
+    from xdsl.ir import Data
+    for n, _p, _s in walk(a):
+        if isinstance(n, Data) and isinstance(n.data, (dict, set, frozenset)) or (isinstance(n, Data) and hasattr(n.data, "items")):
+            if len(n.data) >= 2:
+                return True
+    return False
+
+
+def rebuild_reordered(a, rng=None):
+    """Rebuild ``a`` bottom-up with the entries of every order-insensitive container inserted in a DIFFERENT order
+    (reversed, or shuffled when an rng is given): the result denotes the same value built along another construction
+    path, so it must be ==, hash-equal and interchangeable as set member / dict key."""
+    from xdsl.ir import Attribute, Data
+    b = _b()
+
+    def order(items):
+        items = list(items)
+        if rng is None or len(items) < 3:
+            return list(reversed(items))
+        first = list(items)
+        for _ in range(5):
+            rng.shuffle(items)
+            if items != first:
+                break
+        return items
+
+    def go(x):
+        if isinstance(x, b.DictionaryAttr):
+            return b.DictionaryAttr({k: go(v) for k, v in order(x.data.items())})
+        if isinstance(x, Data) and isinstance(x.data, (set, frozenset)):
+            return type(x).new(type(x.data)(order(go(e) if isinstance(e, Attribute) else e for e in x.data)))
+        if isinstance(x, Data) and isinstance(x.data, dict):
+            return type(x).new({k: (go(v) if isinstance(v, Attribute) else v) for k, v in order(x.data.items())})
+        from xdsl.ir import ParametrizedAttribute
+        if isinstance(x, ParametrizedAttribute):
+            return type(x).new([go(p) for p in x.parameters])
+        if isinstance(x, b.ArrayAttr):
+            return b.ArrayAttr([go(e) for e in x.data])
+        if isinstance(x, Data) and isinstance(x.data, tuple) and any(isinstance(e, Attribute) for e in x.data):
+            return type(x).new(tuple(go(e) if isinstance(e, Attribute) else e for e in x.data))
+        return x
+    return go(a)
 
 
 # ------------------------------------------------------------------ near duplicates (C08)
